@@ -47,7 +47,9 @@ def _corrupt(evs):
 
 
 def plans(tier):
-    return progcheck.standard_plans(tier)
+    # in-place histories: the keys are read after every action, also after an in-place one on the same object
+    extra = [("d2-inplace1-all", 1, 1), ("d2-inplace2-all", 1, 6)] if tier == "quick" else [("d2-inplace1-all", 2, 1), ("d2-inplace2-all", 2, 1)]
+    return progcheck.standard_plans(tier) + extra
 
 
 def run(chk):
